@@ -1,6 +1,8 @@
 (* Dispatch: the single entry point [run : sx -> sx] of the executable model. *)
 From Coq Require Import List ZArith NArith Bool.
-From SV Require Import Sx Str Omap Beat Props Notes Group Msd Simfile Generated.Tables.
+From Coq Require Import QArith.
+From SV Require Import Sx Str Omap Beat Props Notes Group Msd Simfile Engine Generated.Tables.
+Open Scope Z_scope.
 Import ListNotations.
 Open Scope Z_scope.
 
@@ -132,6 +134,26 @@ Definition run_group (cmd : Z) (args : list sx) : sx :=
   | _, _ => bad_request
   end.
 
+Definition un_probe : sx -> option (Q * Z) := un_pair un_Q un_Z.
+Definition run_engine (cmd : Z) (args : list sx) : sx :=
+  match cmd, args with
+  | 110, [td; pt; pb; ph; pa] =>
+      do td' <- un_tdata td; do pt' <- un_list un_probe pt; do pb' <- un_list un_Q pb;
+      do ph' <- un_list un_Q ph; do pa' <- un_list un_probe pa;
+      match states td' with
+      | EOk sts =>
+          let d := hd {| s_beat := 0; s_val := 0; s_tag := 0; s_time := 0; s_bpm := 1; s_warp := false |}%Q sts in
+          ok (L [A 0; sx_list sx_state sts;
+                 sx_list (fun p => sx_Q (time_at sts d (fst p) (snd p))) pt';
+                 sx_list (fun b => sx_Q (bpm_at sts d b)) pb';
+                 sx_list (fun b => sx_bool (hittable sts d b)) ph';
+                 sx_list (fun p => let r := beat_at_raw sts d (fst p) (snd p) in L [sx_Q (fst r); sx_Q (snd r)]) pa'])
+      | EErrValue => ok (L [A 1])
+      | EErrIndex => ok (L [A 2])
+      end
+  | _, _ => bad_request
+  end.
+
 Definition dispatch_request (req : sx) : sx :=
   match req with
   | L (A cmd :: args) =>
@@ -139,6 +161,7 @@ Definition dispatch_request (req : sx) : sx :=
       else if (10 <=? cmd) && (cmd <? 40) then run_msd cmd args
       else if (70 <=? cmd) && (cmd <? 90) then run_notes cmd args
       else if (90 <=? cmd) && (cmd <? 100) then run_group cmd args
+      else if (110 <=? cmd) && (cmd <? 120) then run_engine cmd args
       else if (180 <=? cmd) && (cmd <? 190) then run_props cmd args
       else bad_request
   | _ => bad_request
